@@ -79,6 +79,19 @@ pub fn alphabet(cfg: &Config) -> Alpha {
             (1, va4(3, 3, 3, 0)), (1, va4(3, 5, 5, 0)), (1, va4(5, 5, 3, 0)),
             (0, va4(3, 3, 3, 3)), (0, va4(3, 3, 3, 4)), (0, va4(3, 5, 5, 5)), (0, va4(3, 5, 3, 5)), (0, va4(5, 3, 5, 3)), (0, va4(5, 5, 5, 5)),
         ]
+    } else if cfg.variant == 'W' {
+        // wide: 21 sibling tables under one parent at each level (as many as the frame pool can hold at once)
+        let mut v = vec![];
+        for i in 0..21u64 {
+            v.push((0, va4(3, 5, i, 9)));
+        }
+        for i in 0..21u64 {
+            v.push((1, va4(3, i, 7, 0)));
+        }
+        for i in 0..21u64 {
+            v.push((2, va4(i, 5, 0, 0)));
+        }
+        v
     } else if cfg.variant == 'A' {
         vec![
             (2, va4(3, 5, 0, 0)), (2, va4(3, 6, 0, 0)),
@@ -140,7 +153,7 @@ pub fn alphabet(cfg: &Config) -> Alpha {
             (va4(0, 0, 0, 0), va4(255, 511, 511, 511)),
             (va4(0, 0, 0, 0), va4(511, 511, 511, 511)),
         ]
-    } else if cfg.variant == 'A' {
+    } else if cfg.variant == 'A' || cfg.variant == 'W' {
         vec![
             (va4(3, 5, 7, 10), va4(3, 5, 7, 9)),            // empty
             (va4(3, 5, 7, 9), va4(3, 5, 7, 9)),             // single page
@@ -207,6 +220,8 @@ pub enum Act {
     /// map_to_with_table_flags(page, frame, flags, parent, alloc) — parent == 255: plain map_to (parent flags derived)
     Map { page: u8, frame: u8, flags: u8, parent: u8, sched: u8 },
     Ident { which: u8, flags: u8, sched: u8 },
+    /// identity_map of a frame whose physical address is not a canonical virtual address (no page has that address)
+    IdentHigh { which: u8 },
     Unmap { page: u8 },
     Update { page: u8, flags: u8 },
     SetP { level: u8, page: u8, flags: u8 },
@@ -223,6 +238,9 @@ pub const PARENT_P4_HUGE: u8 = 5;
 /// every PageTableFlags bit except HUGE_PAGE (bit 7) — includes ACCESSED/DIRTY, cache bits, GLOBAL, all available bits, NO_EXECUTE
 pub const ALL_LEAF: u64 = P | W | U | 0x8 | 0x10 | 0x20 | 0x40 | 0x100 | 0xe00 | (0x7ffu64 << 52) | (1 << 63);
 pub const LEAF_PAT_HUGE: u8 = 5;
+
+/// frames (size code, physical address) with address bit 47 or bits 48..51 set
+pub const IDENT_HIGH: [(u8, u64); 4] = [(0, 0x0000_8000_0000_1000), (1, 0x0001_0000_0020_0000), (2, 0x0008_0000_4000_0000), (0, 0x000f_ffff_ffff_f000)];
 
 pub fn actions(al: &Alpha) -> Vec<(Act, u8)> {
     let mut v: Vec<(Act, u8)> = Vec::new();
@@ -274,6 +292,9 @@ pub fn actions(al: &Alpha) -> Vec<(Act, u8)> {
     }
     for i in 0..al.ident.len() as u8 {
         v.push((Act::Ident { which: i, flags: 0, sched: 0 }, 1));
+    }
+    for i in 0..IDENT_HIGH.len() as u8 {
+        v.push((Act::IdentHigh { which: i }, 1));
     }
     v.push((Act::CleanAll, 0));
     for r in 0..al.ranges.len() as u8 {
@@ -527,6 +548,25 @@ pub fn act_page(act: &Act, al: &Alpha) -> Option<(u8, u64)> {
 pub fn exec<M: AllMapper>(m: &mut M, act: &Act, al: &Alpha, policy: Policy, ast: &mut AllocState, skip_slot: Option<usize>) -> Outcome {
     let mut out = Outcome { oc: Oc::Done, flush_page: None, flush_all: false, frame: None, requests: 0, given: vec![], freed: vec![], dealloc_problems: vec![] };
     match *act {
+        Act::IdentHigh { which } => {
+            let (sz, pa) = IDENT_HIGH[which as usize];
+            let mut alloc = Alloc { st: ast, policy, sched: 0, requests: 0, given: vec![] };
+            let flags = fl(al.leaf_flags[0]);
+            // a panic of the call itself unwinds to the caller's catch (outcome None)
+            let r = unsafe {
+                match sz {
+                    0 => m.identity_map(PhysFrame::<Size4KiB>::from_start_address(PhysAddr::new(pa)).unwrap(), flags, &mut alloc).map(|f| { let a = f.page().start_address().as_u64(); f.ignore(); a }).map_err(map_err),
+                    1 => m.identity_map(PhysFrame::<Size2MiB>::from_start_address(PhysAddr::new(pa)).unwrap(), flags, &mut alloc).map(|f| { let a = f.page().start_address().as_u64(); f.ignore(); a }).map_err(map_err),
+                    _ => m.identity_map(PhysFrame::<Size1GiB>::from_start_address(PhysAddr::new(pa)).unwrap(), flags, &mut alloc).map(|f| { let a = f.page().start_address().as_u64(); f.ignore(); a }).map_err(map_err),
+                }
+            };
+            match r {
+                Ok(a) => { out.oc = Oc::Ok; out.flush_page = Some(a); }
+                Err(e) => out.oc = e,
+            }
+            out.requests = alloc.requests;
+            out.given = alloc.given;
+        }
         Act::CleanAll | Act::CleanRange { .. } => {
             let mut d = Dealloc { st: ast, freed: vec![], problems: vec![], skip_slot };
             unsafe {
